@@ -83,6 +83,7 @@ func (a *lin) String() string {
 // ---- per-function context ------------------------------------------------------------------------------------------
 
 type linFn struct {
+	noConstSplit bool // re-entrancy guard of the constant-edge case of the phi split
 	px      *linProver
 	fn      *ssa.Function
 	facts   map[*ssa.BasicBlock][]*lin // facts F >= 0 valid on entry of the block (from dominating edges)
@@ -799,6 +800,17 @@ func (lf *linFn) proveAtWith(goal *lin, in ssa.Instruction, depth int, extra []*
 			g := goal.clone()
 			delete(g.c, x)
 			g = g.addScaled(lf.form(e, 0), q)
+			// a constant arriving through the edge is the value of the phi wherever the phi is used: the goal with
+			// the constant in its place can be proved where it is needed, with the facts that hold there (tests
+			// made after the join are not known at the end of the predecessor)
+			if _, isConst := e.(*ssa.Const); isConst && !lf.noConstSplit {
+				lf.noConstSplit = true
+				okc := lf.proveAtWith(g, in, depth+1, extra)
+				lf.noConstSplit = false
+				if okc {
+					continue
+				}
+			}
 			// the test that ends the predecessor has a known outcome on the edge to the phi
 			var edge []*lin
 			if iff, isIf := pred.Instrs[len(pred.Instrs)-1].(*ssa.If); isIf && pred.Succs[0] != pred.Succs[1] {
